@@ -67,6 +67,9 @@ func cmdFuncs(args []string) {
 	}
 	sort.Strings(keys)
 	for _, k := range keys {
+		if len(cs.Funcs[k].Props) == 0 && len(cs.Funcs[k].Ensures) == 0 && !cs.Funcs[k].NoPanic {
+			continue // frame-only contracts of interface methods and boundary functions
+		}
 		if err := x.VerifyFunc(k, cs.Funcs[k]); err != nil {
 			fmt.Println("ERROR", err)
 		}
